@@ -32,3 +32,13 @@ claim('C20',
       'Real-number model; angles as unit-circle atoms; astropy SkyCoord/WCS replaced by a recording stub.',
       'symbolic execution of the real Python + SMT (z3 NRA)',
       'DESIGN.md section 5 C20')
+claim('C02',
+      'Bounded symbolic check of the real to_mask code with the Cython kernels interpreted from their .pyx source: for '
+      'every feasible box shape (enumerated by the solver) and every pixel, the mask value is shown to lie between the '
+      'fraction of sub-sample centres strictly inside and not strictly outside the shape, for all real centres / sizes / '
+      'angles and all positions of the shape on the pixel grid; mask.bbox == region.bounding_box, data.shape == '
+      'bbox.shape; mode validation and NotImplementedError for unsupported pairs.  Ellipse: plumbing + kernel lemma only.',
+      'Real-number model; boxes <= 3x3 and subpixels <= 2 (quick) / <= 4 (thorough); kernels from source (validated '
+      'against the compiled extension each run); ellipse end-to-end masks outside (solver unknown).',
+      'symbolic execution of the real Python + AST interpretation of the .pyx kernels + SMT (z3 NRA, int relaxation)',
+      'DESIGN.md section 5 C02')
